@@ -35,6 +35,24 @@ CLAIMED = {
             'floats read as reals; 1/sqrt(d) de-rounded to the algebraic constant; lengths 2^9..2^14 not claimed; real jitted '
             'entry point additionally called concretely per configuration',
             'DESIGN.md C18'),
+    'C14': ('J', 'symbolic execution of every Metric.evaluate_example (jaxpr -> z3; sort as compare-exchange network, argmax, '
+                 'one-hot, scatter), equality with first-principles definitions written directly in z3',
+            'Bounded symbolic check: for every metric class and a grid of constructor arguments (k in -3..classes+2, masked '
+            'target values, -inf logit masks, per-position) z3 shows accum, weight and result of the single-example statistic '
+            'equal an independent rank/count/log-sum-exp definition for ALL score vectors (ties included) and ALL targets, '
+            'with classes <= 4 and sequence length <= 3.',
+            'scores are reals (+-inf via flags); cross-entropy reference in shifted log-sum-exp form (exp/log uninterpreted); '
+            'NaN scores and signed zeros outside the claim',
+            'DESIGN.md C14'),
+    'C05': ('J', 'symbolic execution of evaluate_model / ModelEvaluator / evaluate_batch / Stat.merge over symbolic prediction '
+                 'tables, targets and MASK BITS; equality with the sum of single-example statistics; merge laws on symbolic stats',
+            'Bounded symbolic check: for every metric class, <=4 rows split into batches in several ways (incl. empty batches, '
+            'permuted rows, no batches), every subset of rows masked as padding with arbitrary content, z3 shows the result equals '
+            'sum(accum)/sum(weight) over the unmasked rows (0 and finite when none); merge is associative/commutative with zero '
+            'identity for ALL stats in the domain.',
+            'single-example statistics are the real evaluate_example traced per row (C14 ties them to definitions); rows <= 4, '
+            'classes 3, sequence length 2; float non-associativity outside the claim',
+            'DESIGN.md C05'),
 }
 
 NOT_APPLICABLE = {
